@@ -101,3 +101,9 @@ Proof.
   match goal with |- context [if ?b then _ else _] => destruct b end; Lia.lia.
 Qed.
 Print Assumptions controller_poll_never_spins.
+
+(** the three arms of [evaluate]'s select, as [Cli.pstep] models them: the child's result as it is;
+    at the per-evaluation limit and on the abort request the group is killed and reaped and the
+    evaluation returns as rejected at once, whoever still holds the output pipes (shape
+    regenerated from the source) *)
+Example evaluate_arms_shape : evaluate_arms_kill_reap_return = true.  Proof. reflexivity. Qed.
